@@ -11,7 +11,7 @@ Record ncfg := { ntimeout : Z; nooo : Z; nlateness : Z }.
 Record sess := { se_rows : list krow; se_last : Z (* lastActive *); se_start : Z; se_end : Z (* slot *) }.
 Record tsess := { ts_sess : sess; ts_close : Z }.                (* sessionInfo *)
 
-Record nst := { n_sess : list (Z * sess);         (* sessionMap, kept sorted by key *)
+Record nst := { n_sess : list (Z * sess);         (* sessionMap *)
                 n_trig : list (Z * tsess);        (* triggeredSessions *)
                 n_w : wm; n_pend : option Z }.
 Definition nst0 : nst := {| n_sess := []; n_trig := []; n_w := wm0; n_pend := None |}.
@@ -27,12 +27,14 @@ Fixpoint lookup {A} (k : Z) (l : list (Z * A)) : option A :=
   match l with [] => None | (k', v) :: r => if k =? k' then Some v else lookup k r end.
 Fixpoint remove_key {A} (k : Z) (l : list (Z * A)) : list (Z * A) :=
   match l with [] => [] | (k', v) :: r => if k =? k' then remove_key k r else (k', v) :: remove_key k r end.
-(* insert or replace, keeping the list sorted by key *)
-Fixpoint put {A} (k : Z) (v : A) (l : list (Z * A)) : list (Z * A) :=
-  match l with
-  | [] => [(k, v)]
-  | (k', v') :: r => if k <? k' then (k, v) :: l else if k =? k' then (k, v) :: r else (k', v') :: put k v r
-  end.
+(* insert or replace (Go map assignment); the order of the list carries no meaning *)
+Definition put {A} (k : Z) (v : A) (l : list (Z * A)) : list (Z * A) := (k, v) :: remove_key k l.
+
+(* Go ranges over the map in arbitrary order; the harness sorts the results of one delivery by key,
+   and so does the model: insertion sort by key *)
+Fixpoint kins {A} (x : Z * A) (l : list (Z * A)) : list (Z * A) :=
+  match l with [] => [x] | y :: r => if fst x <=? fst y then x :: l else y :: kins x r end.
+Definition ksort {A} (l : list (Z * A)) : list (Z * A) := fold_right kins [] l.
 
 Definition in_sess (s : sess) (ts : Z) : bool := (se_start s <=? ts) && (ts <? se_end s).
 
@@ -73,7 +75,7 @@ Definition nfire (c : ncfg) (s : nst) : nst * list sev :=
   match n_pend s with
   | None => (s, [])
   | Some wmk =>
-      let expired := filter (fun kv => se_end (snd kv) <=? wmk) (n_sess s) in
+      let expired := ksort (filter (fun kv => se_end (snd kv) <=? wmk) (n_sess s)) in
       let live := filter (fun kv => negb (se_end (snd kv) <=? wmk)) (n_sess s) in
       let trig1 := if 0 <? nlateness c
                    then fold_left (fun tr kv => put (fst kv) {| ts_sess := snd kv; ts_close := se_end (snd kv) + nlateness c |} tr)
